@@ -155,7 +155,8 @@ func runFit(w *harness.W, sess *vxh.Session, c fitCase, sample bool) bool {
 	cw, ch := vi.CellSize()
 	if c.Proto == "sixel" && (cw == 0 || ch == 0) {
 		// the encoder clears its busy flag just after posting the Redraw
-		cw, ch = settledCellSize(vi)
+		// (a picture scaled down to nothing really is 0x0: short wait)
+		cw, ch = settledCellSize(vi, 100)
 	}
 	w.Count("fits_"+c.Proto, 1)
 	if p := judgeFit(c, cw, ch); p != "" {
@@ -429,8 +430,8 @@ type frame struct {
 // flag (it does so just after posting the Redraw event; while the flag is set
 // CellSize reports 0x0). The pictures of the placement histories are never
 // empty.
-func settledCellSize(vi vaxis.Image) (int, int) {
-	for k := 0; k < 2000; k++ {
+func settledCellSize(vi vaxis.Image, maxMs int) (int, int) {
+	for k := 0; k < maxMs; k++ {
 		if w, h := vi.CellSize(); w > 0 && h > 0 {
 			return w, h
 		}
@@ -487,7 +488,7 @@ func runPlacements(w *harness.W, sess *vxh.Session, c plCase, sample bool) bool 
 			w.Inconclusive("resize-did-not-complete")
 			return false
 		}
-		x.w, x.h = settledCellSize(x.vi)
+		x.w, x.h = settledCellSize(x.vi, 2000)
 		x.needUp, x.fresh = true, true
 		imgs[i] = x
 	}
@@ -507,7 +508,7 @@ func runPlacements(w *harness.W, sess *vxh.Session, c plCase, sample bool) bool 
 				w.Inconclusive("resize-did-not-complete")
 				return true
 			}
-			imgs[i].w, imgs[i].h = settledCellSize(imgs[i].vi)
+			imgs[i].w, imgs[i].h = settledCellSize(imgs[i].vi, 2000)
 			imgs[i].needUp, imgs[i].fresh = true, true
 		}
 		g0, s0 := mark()
@@ -632,10 +633,19 @@ func runPlacements(w *harness.W, sess *vxh.Session, c plCase, sample bool) bool 
 		w.Count("frames_"+c.Proto, 1)
 		// a Draw right after a Resize may have found the encoder still busy:
 		// nothing is placed then (first frame after the resize only)
-		if len(seenPlace) == 0 && len(sixels) == 0 {
+		{
+			seenAt := map[string]bool{}
+			for _, sp := range seenPlace {
+				if i := strings.IndexByte(sp, '@'); i >= 0 {
+					seenAt[sp[i+1:]] = true
+				}
+			}
+			for _, sx := range sixels {
+				seenAt[sx] = true
+			}
 			var kept []pl
 			for _, p := range wantPlace {
-				if imgs[p.img].fresh {
+				if imgs[p.img].fresh && !seenAt[fmt.Sprintf("%d,%d", p.col, p.row)] {
 					delete(next, p)
 					w.Count("draws_skipped_while_encoder_busy", 1)
 					continue
